@@ -144,7 +144,8 @@ def run_history(spec):
             o.check(digests[i] == digests[0], "model_%d_differs_from_first" % (i + 1),
                     "results of construction %d are not bitwise those of construction 1" % (i + 1))
         has_pm = any(("FuelModel" in a or "PinModel" in a) for a in spec["assemblies"].values())
-        o.classes.update({"builds": k, "pin_model": has_pm,
+        o.classes.update({"builds": k, "pin_model": has_pm, "normalised": spec["power"].get("total_power") is not None,
+                          "scaled": spec["power"].get("scaling") is not None,
                           "hotspot": any("Hotspot" in a for a in spec["assemblies"].values())})
         o.nontrivial = has_pm and len(digests) == k
     return o
@@ -311,6 +312,11 @@ def history_cases(draw, q):
     spec = with_models(draw, spec)
     if draw(st.booleans()):
         spec["setup"]["axial_plane_frac"] = [round(draw(gen.fl(0.05, 0.95)), 3) for _ in range(draw(st.integers(1, 3)))]
+    # normalisation and scaling options (the requested core power absent / given, scaling factor absent / given)
+    if draw(st.booleans()):
+        spec["power"]["total_power"] = None
+    if draw(st.booleans()):
+        spec["power"]["scaling"] = gen.r6(draw(gen.fl(0.2, 2.5)))
     spec["_builds"] = draw(st.integers(2, 3))
     spec["_write_output"] = draw(st.booleans())
     return spec
@@ -345,6 +351,8 @@ def execution_cases(draw, q):
         files.append(f)
     spec["power"]["files"] = files
     spec["power"]["total_power"] = None
+    if draw(st.booleans()):
+        spec["power"]["scaling"] = gen.r6(draw(gen.fl(0.2, 2.5)))
     spec["setup"]["dump"] = {"coolant": True, "average": True, "interval": None}
     spec["_ncpu"] = draw(st.integers(1, 4))
     return spec
